@@ -7,7 +7,14 @@ def run(res, work, tier, seed):
     vlib.stage_specs(work)
     m3common.model(res, work, tier, [("WeakPendingAfterDoneCheck", "NoSendOnClosedQueue"), ("WeakCloseNoSpin", "NoSendOnClosedQueue"), ("WeakFlushIgnoresDone", "NoSendOnClosedQueue"),
                                      ("WeakSecondCloseOk", "SecondCloseErrors", dict(Closers='{"c1", "c2"}', Flushers="{}")), ("WeakLeakPendingOnDone", "NoDeadlock")])
-    m3common.sched_runs(res, work, tier, seed, m3common.C14, step_level=True)
+    from concurrent.futures import ThreadPoolExecutor
+    side = vlib.Result(res.pid, res.tier, res.seed)
+    side.tag = "r"
+    with ThreadPoolExecutor(max_workers=1) as ex:
+        fut = ex.submit(race_clause, side, work, tier, seed)   # at the same time as the scheduler-driven runs
+        m3common.sched_runs(res, work, tier, seed, m3common.C14, step_level=True)
+        fut.result()
+    res.merge(side)
     res.rule = ("executions of the real M3 reporter under the controlled scheduler against loopback UDP sinks: exhaustive DFS over the thread choices at the handshake points "
                 "(pending++ / done check / select-send / pending-- against CAS done / spin / close donech / close queue / wait, and the batching goroutine's receive) for one producer x "
                 "Close + late report, one producer x two concurrent Close callers, Flush x Close, two producers x Close with queue size 1; seeded random schedules over all hook points for "
@@ -17,4 +24,54 @@ def run(res, work, tier, seed):
                 "step of the four DFS scenarios (thread, label, projection pending / done / queue length before the step) is replayed through the actions of M3Reporter.tla (M3StepTrace: "
                 "step-level conformance; a corrupted projection and a removed step are shown to be rejected on every run).")
     res.assumptions += ["schedule points are the verif-tagged hooks; code between two hooks of one goroutine is atomic w.r.t. the other scenario goroutines; the reporter's clock goroutine has no hooks and runs freely",
-                        "data-race freedom is not decided here (not expressible in TLA+); the thorough tier re-runs the random scenarios with the Go race detector as an observation channel"]
+                        "data-race freedom is not expressible in the TLA+ model: the free-running conformance drivers (c13: producers of all kinds incl. several goroutines on ONE value / duration "
+                        "bucket handle, Flush, concurrent Close callers, both protocols, reachable and unreachable destinations; c12: concurrent Allocate*) are re-run as a binary built with "
+                        "`go build -race`, and a race report whose stacks touch the m3 packages is a violation (clause DataRace)"]
+
+
+def race_clause(res, work, tier, seed):
+    """'without data races': the free-running drivers under the Go race detector (observation channel of the conformance runs)."""
+    import os, subprocess
+    exe = vlib.build_harness(race=True)
+    reports = []
+    runs = 0
+    for cmd in ("c13", "c12"):
+        for k in range(3 if tier == "thorough" else 1):
+            d = os.path.join(work, "race-%s-%d" % (cmd, k))
+            os.makedirs(d, exist_ok=True)
+            e = vlib.goenv()
+            e["GORACE"] = "halt_on_error=0 exitcode=66 log_path=" + os.path.join(d, "race")
+            p = subprocess.run([exe, cmd, "-out", d, "-seed", str(seed + k), "-tier", tier], env=e, stdout=subprocess.PIPE, stderr=subprocess.STDOUT, text=True, timeout=3000)
+            runs += 1
+            if cmd == "c13" and os.path.exists(os.path.join(d, "meta.json")):
+                # the histories of the instrumented binary are conformance runs like any other: crash / hang / leak clauses
+                vlib.stage_specs(d)
+                meta = vlib.read_meta(d)
+                trace = os.path.join(d, "trace.ndjson")
+                fails, r = vlib.tlc_trace(d, "MCM3ObsTrace.tla", "M3ObsTrace.cfg", trace, meta["events"], timeout=3000)
+                if r["violated"] or not r["consumed"]:
+                    raise vlib.Infra("M3ObsTrace did not consume the free-running trace: %s\n%s" % (r["violated"], r["out"][-3000:]))
+                res.add_trace_run("M3ObsTrace free-running histories (race-detector build)", r, meta["cases"], meta["events"])
+                res.states += r["distinct"]; res.transitions += r["generated"]
+                lines = vlib.read_lines(trace)
+                res.judge_fails([f for f in fails if f[1] in m3common.C14], lines,
+                                lambda ln: vlib.case_context(lines, max(ln, 1), lambda s: '"e":"scn"' in s, max_lines=80))
+                if meta.get("hung"):
+                    res.extra["free_running_hang"] = "a history hung; the run ended there"
+            if cmd == "c12" and os.path.exists(os.path.join(d, "meta.json")):
+                meta = vlib.read_meta(d)
+                if meta.get("hung"):
+                    res.violation("NoDeadlock", "the reporter hung in the sequential batching driver (c12), case %d" % (meta["cases"] + 1),
+                                  dict(where=meta.get("where"), note="stacks of the goroutines inside the m3 package, identical in three dumps one second apart after 20 s without progress"))
+            logs = sorted(f for f in os.listdir(d) if f.startswith("race."))
+            for f in logs:
+                txt = open(os.path.join(d, f)).read()
+                if "tally" in txt and "/m3" in txt:
+                    reports.append(txt)
+            if not logs and p.returncode != 0:
+                raise vlib.Infra("race-detector run of %s failed rc=%d\n%s" % (cmd, p.returncode, p.stdout[-3000:]))
+    res.extra["race_detector_runs"] = runs
+    res.evaluations += runs
+    if reports:
+        res.violation("DataRace", "Go race detector report in the m3 reporter (%d report files)" % len(reports), dict(report=reports[0][:8000]))
+
